@@ -595,5 +595,31 @@ def r_leak(e, R):
             need.add(attr)
     R.check(need <= F, "R-LEAK", f"shutdown() drops its references to {sorted(need)}", a.shutdown.short, f"nulled {sorted(F)}",
             f"shutdown() keeps {sorted(need - F)}: descriptors stay open as long as the user holds the executor", e.loc(a.shutdown, a.shutdown.node))
+    # (5b) once every worker was killed nobody reads the call queue any more: the parent must close ITS reader end, otherwise a
+    # feeder thread blocked in send_bytes on a full pipe never gets EPIPE and leaks (thread + queue descriptors + semaphores)
+    from .broken import kill_workers_func
+    kw = kill_workers_func(e)
+
+    def closes_reader(f, c):
+        if not (isinstance(c.func, ast.Attribute) and c.func.attr == "close"):
+            return False
+        x = c.func.value
+        return isinstance(x, ast.Attribute) and bool(e.objs(f, x.value) & a.callq) and \
+            any(o[0] == "obj" and o[2].startswith("extfield:") and o[2].endswith("_reader") for o in e.objs(f, x))
+    for q in sorted({kw.qualname} | {cq for cq, k, c in e.redges().get(kw.qualname, ())}):
+        pass
+    callers = [(e.prog.funcs[cq], c) for cq, k, c in e.redges().get(kw.qualname, ()) if e.prog.funcs[cq].module.name != "__user__"]
+    for cf, c in callers:
+        w = e.func_calls_trans(kw.qualname, closes_reader)
+        if w is None:
+            # or the caller does it itself after the kill, before joining the internals
+            cg = e.cfg(cf)
+            kn = cfg_nodes(e, cf, c)
+            cl = effect_nodes(e, cf, closes_reader)
+            w = True if kn and all(cg.escape_path(n, lambda m: m in cl, use_exc=False) is None for n in kn) and cl else None
+        R.check(w is not None, "R-LEAK", f"{cf.short}: after killing every worker the parent closes its reader end of the call queue", cf.short,
+                "call_queue._reader.close() after kill_workers", "after the workers are killed nothing reads the call queue, but the parent keeps its own "
+                "reader end open: a feeder thread blocked writing a large task never fails with EPIPE and stays blocked forever -- one leaked thread, "
+                "two descriptors and three semaphores per broken/killed executor", e.loc(cf, c))
     # (6) the sentinel has a closing finaliser (R-EXITCODE) and the launch closes its child ends (R-SPAWN-FRESH) -- referenced, not duplicated
     R.floor("R-LEAK", 8)
